@@ -74,6 +74,14 @@ Eval(e, S) ==
          IF ~IsNorm(r) THEN R3(r.S, "", r.comp)
          ELSE IF Expect(r.S, "call", Str(e.k)) THEN R3(Adv(r.S), "None", Norm) ELSE R3(r.S, "", Drift("call " \o Str(e.k)))
     [] e.e = "lambda" -> Eval(e.x, S)
+    [] e.e = "comp2" ->      \* [w for v in IT(k) for w in (v, v)] : only the outer iteration is observable
+         IF ~Expect(S, "iter", Str(e.k)) THEN R3(S, "", Drift("comp2 iter"))
+         ELSE LET RECURSIVE Loop2(_)
+                  Loop2(T) == IF Expect(T, "next", Str(e.k)) THEN Loop2(Adv(T))
+                              ELSE IF Expect(T, "stop", Str(e.k)) THEN R3(Adv(T), "?", Norm)
+                              ELSE IF Expect(T, "raise", Str(e.k)) THEN R3(Adv(T), "", Exc("exc:" \o Str(e.k)))
+                              ELSE R3(T, "", Drift("comp2"))
+              IN Loop2(Adv(S))
     [] e.e = "comp" ->
          IF ~Expect(S, "iter", Str(e.k)) THEN R3(S, "", Drift("comp iter"))
          ELSE LET RECURSIVE Loop(_)
